@@ -198,13 +198,12 @@ func (rd Renderer) Render(ctx context.Context, page string, data authboss.HTMLDa
 		return nil, "", ErrInjected
 	}
 	out := page
-	if u, ok := data["url"]; ok {
-		if s, ok := u.(string); ok {
-			out = page + "|" + s
+	for _, k := range []string{"url", "recover_url"} {
+		if u, ok := data[k]; ok {
+			if s, ok := u.(string); ok {
+				out += "|" + s
+			}
 		}
-	}
-	if u, ok := data["recovery_codes"]; ok {
-		_ = u
 	}
 	return []byte(out), "text/plain", nil
 }
